@@ -308,8 +308,8 @@ c('NaiveWeek::checked_last_day', U, requires="dwf(self.date)",
 # C05/C16  transition-table lookups (src/offset/local/tz_info/timezone.rs) -- Verus (units/tz.py)
 U = 'verus:tz'
 c('TimeZoneRef::find_local_time_type_from_local', U,
-  requires="tz_wf(self.transitions@, self.local_time_types@), tz_sep(self.transitions@, self.local_time_types@), *self.extra_rule is None, dtwf(local_time)",
-  ensures="from_local_post(self.transitions@, self.local_time_types@, unix_secs(local_time), r)")
+  requires="tz_wf(self.transitions@, self.local_time_types@), tz_ordered(self.transitions@, self.local_time_types@), *self.extra_rule is None, dtwf(local_time)",
+  ensures="from_local_post(self.transitions@, self.local_time_types@, unix_secs(local_time), r), exact_post(self.transitions@, self.local_time_types@, unix_secs(local_time), r)")
 c('TimeZoneRef::validate', U,
   ensures="r is Ok ==> tz_wf(self.transitions@, self.local_time_types@)")
 
@@ -339,3 +339,9 @@ c('AlternateTime::find_local_time_type_from_local', U, requires=AWF + " && dtwf(
   ensures="r is Ok, (r->Ok_0 is Single ==> (r->Ok_0->Single_0 == self.std || r->Ok_0->Single_0 == self.dst)), "
           "(r->Ok_0 is Ambiguous ==> r->Ok_0->Ambiguous_0.ut_offset > r->Ok_0->Ambiguous_1.ut_offset "
           "&& ((r->Ok_0->Ambiguous_0 == self.std && r->Ok_0->Ambiguous_1 == self.dst) || (r->Ok_0->Ambiguous_0 == self.dst && r->Ok_0->Ambiguous_1 == self.std)))")
+U = 'verus:tz'
+c('TimeZoneRef::unix_time_to_unix_leap_time', U, requires="self.leap_seconds@.len() == 0", ensures="r is Ok, r->Ok_0 == unix_time")
+c('TimeZoneRef::find_local_time_type', U,
+  requires="tz_wf(self.transitions@, self.local_time_types@), *self.extra_rule is None, self.leap_seconds@.len() == 0",
+  ensures="r is Ok, exists|k: int| 0 <= k <= self.transitions@.len() && *r->Ok_0 == #[trigger] interval_type(self.transitions@, self.local_time_types@, k) "
+          "&& (k == 0 || self.transitions@[k - 1].unix_leap_time <= unix_time) && (k == self.transitions@.len() || unix_time < self.transitions@[k].unix_leap_time)")
